@@ -174,6 +174,16 @@ bool binson_parser_go_into_object''', 1)], 'field_ensure does not set WRONG_TYPE
     (void) tmp;
     int r = memcmp(a->bptr,''', 1)], 'VLA sized by the name length in _cmp_name'),
  'm54_static_pack_buffer': (['C17'], [(W, '    uint8_t pack_buffer[sizeof(int64_t) + 1];', '    static uint8_t pack_buffer[sizeof(int64_t) + 1];', 1)], 'static pack buffer in _write_token'),
+ 'm59_quadratic_rescan_in_helper': (['C16'], [(P, '''                state->current_name.bptr = consumed.bptr;
+                state->current_name.bsize = consumed.bsize;''', '''                {
+                    size_t chk_i;
+                    volatile uint8_t chk = 0;
+                    for (chk_i = 0; chk_i < parser->buffer_used; chk_i += 16) {
+                        chk ^= parser->buffer[chk_i];
+                    }
+                }
+                state->current_name.bptr = consumed.bptr;
+                state->current_name.bsize = consumed.bsize;''', 1)], 'every field name triggers a re-scan of the buffer up to the cursor (quadratic work that does not pass the token callback; all results stay correct)'),
  'm56_cmp_name_char_loop': (['C18', 'C07', 'C02'], [(P, '''    int r = memcmp(a->bptr,
                    b->bptr,
                    MIN(a->bsize, b->bsize));
